@@ -152,8 +152,36 @@ def predicted(model, side: SideResult):
     rows, wild = [], []
     for r in side.rows:
         rows.append([C.model_value(model, c) for c in r])
-        wild.append([bool(z3.is_true(model.eval(zor(c.dc, c.kf), model_completion=True))) for c in r])
+        # cells computed through an uninterpreted function (transcendentals, pow with a symbolic exponent) have no concrete prediction
+        wild.append([bool(z3.is_true(model.eval(zor(c.dc, c.kf), model_completion=True))) or _uses_uf(c.val) or _uses_uf(c.null) for c in r])
     return side.cols, rows, wild
+
+
+_UF_CACHE = {}
+
+
+def _uses_uf(e):
+    if not z3.is_expr(e):
+        return False
+    todo, seen = [e], set()
+    while todo:
+        x = todo.pop()
+        i = x.get_id()
+        if i in seen:
+            continue
+        seen.add(i)
+        if i in _UF_CACHE:
+            if _UF_CACHE[i]:
+                return True
+            continue
+        if z3.is_app(x):
+            d = x.decl()
+            if d.kind() == z3.Z3_OP_UNINTERPRETED and x.num_args() > 0 and d.name().startswith("uf_"):
+                _UF_CACHE[e.get_id()] = True
+                return True
+            todo.extend(x.children())
+    _UF_CACHE[e.get_id()] = False
+    return False
 
 
 # ----------------------------------------------------------------------------------------------------------------- real engines
